@@ -42,7 +42,7 @@ TIERS = {
 }
 FLOORS = {
     "quick": {"counts": {"writer_stream_comparisons": 15000, "flush_checks": 2000, "teardown_checks": 1500,
-                         "payloads_written": 15000, "disk_readbacks": 1500}, "keys": 100},
+                         "payloads_written": 10000, "disk_readbacks": 1000}, "keys": 100},
     "thorough": {"counts": {"writer_stream_comparisons": 700000}, "keys": 150},
 }
 KINDS = ["path", "bytesio", "stringio", "binfile", "textfile", "console", "custom"]
